@@ -8,6 +8,7 @@ CONSTANTS
   Forms = {"take", "read", "take_next", "read_next", "take_inst", "read_inst"}
   Kinds = {"V", "D"}
   Retransmit = FALSE
+  NoKey = FALSE
   GenK = 200
 CONSTRAINT Bound
 VIEW View
